@@ -422,3 +422,35 @@ Proof.
   { rewrite Hj. intro E0. rewrite E0 in Hlast. cbn in Hlast. discriminate. }
   rewrite (canon_text_last _ Hne), Hj, Hlast. reflexivity.
 Qed.
+
+(* after the dot loop: ds = Some d is the index after the last dot, and the tail from d is empty
+   exactly when the string ends with a dot *)
+Lemma check_loop_tail s d :
+  s <> [] ->
+  name_loop (fun (_ : unit) l => check_label_bytes l) s s 0 0 None tt = Ok (Some d, tt) ->
+  d <= lenN s /\ (d = lenN s <-> bN (last s x00) =? 46 = true).
+Proof.
+  intros Hne EL.
+  pose proof (name_loop_split s s [] [] 0 None eq_refl eq_refl ltac:(constructor) ltac:(tauto) ltac:(discriminate)) as HL.
+  change (lenN (@nil byte) + lenN (@nil byte)) with 0 in HL. rewrite EL in HL. cbv beta iota zeta in HL.
+  set (ps := split_dots s []) in *.
+  assert (Hps : ps <> []) by apply split_dots_nonempty.
+  assert (Hjoin : join_dots ps = s) by (subst ps; rewrite join_split; reflexivity).
+  destruct HL as (_ & Hnone & Hsome). specialize (Hsome d eq_refl).
+  split; [lia|].
+  assert (Hmany : (length ps <> 1)%nat).
+  { intro H1. destruct Hnone as [_ Hn]. discriminate (Hn (conj eq_refl H1)). }
+  destruct (last ps []) as [|lb lr] eqn:Elast.
+  - rewrite lenN_nil in Hsome. split; [intros _|intros; lia].
+    assert (Hrl : removelast ps <> []).
+    { destruct ps as [|p [|q r]]; try congruence; [cbn in Hmany; congruence|discriminate]. }
+    rewrite <- Hjoin. rewrite (app_removelast_last [] Hps), Elast. rewrite (join_ends_with_dot _ Hrl). reflexivity.
+  - rewrite lenN_cons in Hsome. split; [intros; lia|]. intro Hdot. exfalso.
+    destruct (join_last ps Hps) as [pre Hpre].
+    assert (Hlb : last s x00 = last (lb :: lr) x00).
+    { rewrite <- Hjoin, Hpre, Elast. apply last_app'. discriminate. }
+    pose proof (pieces_no_dot s [] ltac:(constructor)) as Hp. fold ps in Hp.
+    assert (Forall (fun b => bN b <> 46) (last ps [])) by (rewrite Forall_forall in Hp; apply Hp, last_In; assumption).
+    rewrite Elast in H. rewrite Forall_forall in H. specialize (H (last (lb :: lr) x00) ltac:(apply last_In; discriminate)).
+    rewrite Hlb in Hdot. lia.
+Qed.
